@@ -508,3 +508,63 @@ mod oracle {
         std::fs::write(out_path, out).unwrap();
     }
 }
+
+// parse_attribute_text (C02 / C08): replay on real element types: the root element, a package (optional attributes),
+// a reference (required DEST attribute)
+#[cfg(not(kani))]
+fn n_etype(path: &[ElementName]) -> ElementType {
+    let mut t = ElementType::ROOT;
+    for n in path {
+        t = t.find_sub_element(*n, u32::MAX).expect("VK_REPLAY_SHAPE").0;
+    }
+    t
+}
+
+#[cfg(not(kani))]
+pub fn n_attr_text() {
+    let input = replay_input();
+    let relational = vk::any_bool();
+    let strict1 = vk::any_bool();
+    let types = [
+        ElementType::ROOT,
+        n_etype(&[ElementName::ArPackages, ElementName::ArPackage]),
+        n_etype(&[ElementName::ArPackages, ElementName::ArPackage, ElementName::Elements, ElementName::System, ElementName::FibexElements,
+                  ElementName::FibexElementRefConditional, ElementName::FibexElementRef]),
+    ];
+    for et in types {
+        if !relational {
+            let mut p = ArxmlParser::new(PathBuf::new(), &[], strict1);
+            p.fileversion = AutosarVersion::Autosar_00050;
+            let r = p.parse_attribute_text(et, &input);
+            if let Err(e) = &r {
+                vk_check!(parser_err_line(e) == Some(1), "error names a line outside the document");
+            }
+            continue;
+        }
+        let mut ps = ArxmlParser::new(PathBuf::new(), &[], true);
+        let mut pl = ArxmlParser::new(PathBuf::new(), &[], false);
+        ps.fileversion = AutosarVersion::Autosar_00050;
+        pl.fileversion = AutosarVersion::Autosar_00050;
+        let rs = ps.parse_attribute_text(et, &input);
+        let rl = pl.parse_attribute_text(et, &input);
+        match (&rs, &rl) {
+            (Ok(a), Ok(b)) => {
+                vk_check!(pl.warnings.is_empty(), "lenient warns about attribute text that strict accepts");
+                vk_check!(a.len() == b.len() && a.iter().zip(b.iter()).all(|(x, y)| x == y), "strict and lenient produce different attributes");
+                for (name, _spec, required) in et.attribute_spec_iter() {
+                    vk_check!(!required || a.iter().any(|x| x.attrname == name), "strict loading accepts an element without a required attribute");
+                }
+                for x in a.iter() {
+                    let spec = et.find_attribute_spec(x.attrname);
+                    vk_check!(spec.is_some_and(|s| s.version & (AutosarVersion::Autosar_00050 as u32) != 0), "strict loading accepts an attribute that is unknown for the element or not available in the file version");
+                }
+            }
+            (Ok(_), Err(_)) => vk_check!(false, "strict accepts attribute text that lenient rejects"),
+            (Err(es), Ok(_)) => {
+                vk_check!(!pl.warnings.is_empty(), "lenient silently accepts attribute text that strict rejects");
+                vk_check!(err_kind(es) == err_kind(&pl.warnings[0]), "strict error is not the first lenient warning");
+            }
+            (Err(_), Err(_)) => {}
+        }
+    }
+}
